@@ -20,14 +20,16 @@
    [RErr] outcome is the state the real object is left in when the exception propagates
    (operations are not atomic in the code: deletes done before the exception stay done).
 
-   Limit of the model ([RUnmodelled], never a normal-looking answer): the code's rename()
-   stores the new name un-normalised and an insertion at the root path stores the name '';
-   both produce a node that path lookups can never reach again.  The state right after such
-   an operation IS modelled (all getters are compared, and the refutations in PropC19.v use
-   it); but every later mutating call in such a state answers [RUnmodelled], because from
-   there on the code's behaviour depends on object identity and reference counting of
-   detached nodes (overwritten-but-still-indexed nodes, weak parents dying), which an
-   inductive tree cannot express. *)
+   Limit of the model ([RUnmodelled], never a normal-looking answer): an insertion at the
+   root path (create/mkdir/update/set_oid/rename whose normalised target is "/") stores a child
+   with the empty name '' under the root, a node that path lookups can never reach again.  The
+   state right after such an operation IS modelled (all getters are compared, and the refutation
+   in PropC19.v uses it); but every later mutating call in such a state answers [RUnmodelled],
+   because from there on the code's behaviour depends on object identity and reference counting
+   of detached nodes (and on unbounded recursion: delete(path="/") then recurses forever), which
+   an inductive tree cannot express.  (Until repository commit 5cc1cf3 rename() also stored the
+   new name un-normalised, with the same effect on case-insensitive providers; the model follows
+   the repaired code: the new path is normalised first.) *)
 From Coq Require Import NArith List Bool.
 From CS Require Import Sx Str.
 Import ListNotations.
@@ -297,7 +299,7 @@ Definition op_rename (cf : cfg) (c : cache) (p q : path) : outcome * cache :=
     | Some nd =>
       let c1 := with_root c (remove rp (c_root c)) in               (* _delete(node) *)
       let c2 := snd (delete_loc c1 (loc_path cf c1 q)) in           (* self.delete(path=new_path) *)
-      insert_node cf c2 nd q                                        (* the raw new path: name not normalised *)
+      insert_node cf c2 nd (map (cf_fold cf) q)                     (* __insert_node(node, normalize_path(new_path)) *)
     | None => (ROk, c)
     end
   | _ => (ROk, snd (delete_loc c (loc_path cf c q)))
